@@ -339,6 +339,25 @@ func vhIsWritable(path string) error {
 }
 
 func vhOsOpen(name string) (*os.File, error) {
+	// harnesses whose files are a model (one content, or a map from names to bytes): code that opens the file
+	// instead of calling os.ReadFile must see the same bytes.  The engine has no model of *os.File, so such a
+	// path is decided by the native probe - which then reads a real file holding exactly the model's content
+	// (round 10: without this a correct streaming reader would have been reported, because the real
+	// os.Open did not find the model's file)
+	if vStubOn("fs") {
+		b, ok := vhFiles[name]
+		if !ok {
+			return nil, &os.PathError{Op: "open", Path: name, Err: os.ErrNotExist}
+		}
+		return vhOpenModelFile(string(b))
+	}
+	if vStubOn("readfile") {
+		vhReadPath = name
+		if vhReadFails {
+			return nil, errors.New("vh: read error")
+		}
+		return vhOpenModelFile(vhFileContent)
+	}
 	if !vStubOn("rundir") {
 		return os.Open(name)
 	}
@@ -1013,4 +1032,20 @@ func vh_C09_inspections(a []int) {
 		vAssert("C09.failure-returns-no-links", out == nil)
 	}
 	vReach("C09.end")
+}
+
+// vhOpenModelFile: an open real file (already unlinked) that holds the given bytes
+func vhOpenModelFile(content string) (*os.File, error) {
+	f, err := os.CreateTemp("", "vh-model-*")
+	if err != nil {
+		return nil, err
+	}
+	os.Remove(f.Name())
+	if _, err := f.WriteString(content); err != nil {
+		return nil, err
+	}
+	if _, err := f.Seek(0, 0); err != nil {
+		return nil, err
+	}
+	return f, nil
 }
